@@ -346,7 +346,12 @@ def get_strategy_base():
                 lo = min(min(p for _, p in rows), float(self.price))
                 hi = max(max(p for _, p in rows), float(self.price))
                 for kind in ('sl', 'tp'):
-                    rws = self._exit_rows('go', kind, side, ref, float(qty), allow_odd=(len(rows) == 1 and (self._plan or {}).get('style') == 'market'), ref_lo=lo, ref_hi=hi)
+                    # a wrong-side row declared before the entry is replaced by jesse with a PLAIN market order of the
+                    # row's size; it is only explored where that order closes the position exactly (single market
+                    # entry, this the only exit row of the program) - anything else flips the position back and forth
+                    odd_ok = (len(rows) == 1 and (self._plan or {}).get('style') == 'market'
+                              and (pr['sl_rows'] + pr['tp_rows']) == 1)
+                    rws = self._exit_rows('go', kind, side, ref, float(qty), allow_odd=odd_ok, ref_lo=lo, ref_hi=hi)
                     if rws is None:
                         continue
                     if kind == 'tp' and self._decl['sl'] is not None and rws == self._decl['sl']:
